@@ -14,6 +14,20 @@ CHECKS = {
          "5.C15"),
 }
 
+_SS = ("Small-scope exhaustive exploration of the real implementation: every key set of the bounded universes (all subsets of a 21/85-string universe over a seed-rotated 4-symbol alphabet up to the tier's size), every scaffold (257-bit root / two big levels / short tables of each size / bit-offset shifts / lifted prefixes) applied to every smaller subset, regular large families; x every run pattern of equal adjacent values and nil values x encoders x option combinations x {fresh, Unmarshal-loaded, proto-loaded} instances. ")
+_NOTE = "Bounded: 4-symbol alphabets, <= 4 (quick) / 6 (thorough) free keys per set plus scaffolds; trusts the Go toolchain, the harness' sorted-slice reference model and (for expected values) the library's own encoders, which C15 decides."
+CHECKS.update({
+ "C01": ("model_checking", "small-scope exhaustive input enumeration on the real builder and lookup code against a sorted-slice reference model",
+         _SS + "Oracle: Get on every retained key = (Decode(Encode(v)), true), GetID >= 0. Exhaustive within the stated bounds, every explored trace is an implementation trace.", _NOTE, "5.C01"),
+ "C02": ("model_checking", "small-scope exhaustive input enumeration (all run-length patterns over all key subsets) against the reference model",
+         _SS + "Oracle: RangeGet on EVERY input key, retained or de-duplicated away, = (value supplied for that key, true).", _NOTE, "5.C02"),
+ "C03": ("model_checking", "small-scope exhaustive enumeration of tries x the whole query universe against an exact ordered-map reference",
+         _SS + "Complete modes only; every query of the universe one symbol larger and one position longer than the key universe (plus long / all-00 / all-ff strings and per-key mutations), lifted and unlifted. Oracle: Get/GetID found iff retained, RangeGet = value of max{r<=q}, Search = exact neighbours.", _NOTE, "5.C03"),
+ "C09": ("model_checking", "small-scope exhaustive input enumeration; neighbour oracle from the sorted retained list",
+         _SS + "Oracle: Search on every retained key returns (v_{i-1}|nil, v_i, v_{i+1}|nil) in every option combination and instance.", _NOTE, "5.C09"),
+ "C10": ("model_checking", "small-scope exhaustive enumeration of tries x query universe; totality and cross-API consistency relations",
+         _SS + "Every query of the query universe in every mode, with and without values. Oracle: no panic; hit value was supplied; Get/GetID/Search-exact agree; Get hit implies RangeGet hit with the same value.", _NOTE, "5.C10"),
+})
 NOT_YET = {}
 
 def main():
